@@ -2,10 +2,13 @@
 # seedregress.sh [ids...]: re-runs the stored seeded changes (seeded/<id>/patch.diff) against the CURRENT machinery:
 # for each, a scratch worktree of the repository under test with the patch applied, the check of the seed's property
 # (quick tier), one line "<id> <property> caught|tie-only|MISSED".  Location-independent (runs in a `vp run` snapshot).
+# The stored-history corpus is switched off (it holds these very seeds' failing inputs): what is measured is what the
+# generators and monitors find by themselves.  CORPUS=1 ./seedregress.sh … leaves it on.
 cd "$(dirname "$0")"
 V=$(pwd)
 export GOFLAGS=-mod=mod GOPROXY=off GOSUMDB=off GOTOOLCHAIN=local
 SRC=${VP_RUN_REPO:-/repo}
+[ -z "$CORPUS" ] && export VERIF_NO_CORPUS=1
 RUT=${RUT:-/tmp/rut-regress-$$}
 [ -x lean/.lake/build/bin/pfdriver ] || ./setup.sh > /dev/null 2>&1
 IDS=${@:-$(ls seeded)}
